@@ -15,7 +15,8 @@ THEOREMS = [
     "C14.Dangling.not_resolvable", "C14.unknown_then_known", "C14.palette_twice", "C14.palette_after_palette",
     "C14.palette_unchanged", "C14.nocolor", "C14.cache_fresh", "C14.no_error", "C14.no_error_add",
     "C14.parsed_colors_accepted", "C14.global_off_same", "C14.resolve_spec_global", "C14.synced_fresh",
-    "C14.no_error_global", "C14.no_error_pal", "C14.setGlobal_reentrant_raises",
+    "C14.registered_class_described", "C14.synced_pending_uncoloured", "C14.no_error_global", "C14.no_error_pal",
+    "C14.setGlobal_reentrant_raises",
 ]
 
 
@@ -279,7 +280,9 @@ def _impl(col, case, synced):
         op, *args = line.split()
         if op == "cls":
             try:
-                k = int(args[0])
+                k, _, cname = args[0].partition("@")
+                k = int(k)
+                cname = dec_str(cname) if cname else "P%d" % k
                 parents = [] if args[1] == "none" else [int(x) for x in args[1].split(",")]
                 accs = [] if args[2] == "none" else [tuple(dec_str(x) for x in p.split("=")) for p in args[2].split(";")]
                 dflt = None if args[3:] == ["nodefaults"] else parse_cfg(args[3:])
@@ -291,7 +294,8 @@ def _impl(col, case, synced):
             body = {name: col.ConfColor(synt) for name, synt in accs}
             body["SYNTAX_DEFAULTS"] = dflt
             body["PARENT_PALETTES"] = [classes[p] for p in parents] if parents else None
-            classes.append(type("P%d" % k, (col.Palette,), body))
+            # distinct class objects, possibly with one and the same module + qualified name
+            classes.append(type(cname, (col.Palette,), body))
             out.append("ok")
             continue
         if dead:
@@ -431,8 +435,26 @@ def _o_mods(sec):
     return mods
 
 
+_O_CACHE = {}
+
+
 def o_parse(descr):
     """description -> (parent or None, fg, bg, mods); raises _Unknown for anything not plainly valid"""
+    r = _O_CACHE.get(descr)
+    if r is None:
+        if len(_O_CACHE) > 200000:
+            _O_CACHE.clear()
+        try:
+            r = _o_parse(descr)
+        except _Unknown as e:
+            r = e
+        _O_CACHE[descr] = r
+    if isinstance(r, _Unknown):
+        raise r
+    return r
+
+
+def _o_parse(descr):
     secs = descr.split(":")
     if len(secs) > 3:
         raise _Unknown(descr)
@@ -502,10 +524,11 @@ class _Spec:
             synt_id = col.ColorsConfig.DFLT_SYNTAX_ID
             if synt_id not in self.final:
                 return (None, None, {})
-        chain, cur = [], synt_id
+        chain, onchain, cur = [], set(), synt_id
         while cur is not None:
-            if cur in chain:
+            if cur in onchain:
                 raise _Unknown("cycle")
+            onchain.add(cur)
             if cur not in self.final:
                 return (None, None, {})            # the chain reaches an unknown id: uncoloured
             if cur not in self.explicit and len(self.offers[cur]) > 1:
@@ -525,11 +548,11 @@ class _Spec:
 
     def resolvable(self, synt_id):
         """the reference chain of a described id ends in a description without reference"""
-        cur, seen = synt_id, []
+        cur, seen = synt_id, set()
         while cur is not None:
             if cur not in self.final or cur in seen:
                 return False
-            seen.append(cur)
+            seen.add(cur)
             cur = o_parse(self.final[cur])[0]
         return True
 
@@ -543,14 +566,18 @@ class _Spec:
         return _prefix(_color().ColorFmt(fg, bg_color=bg, **mods)("t"))
 
     def check_all_valid(self):
+        """every description is plainly valid and no reference chain runs into a cycle (linear in the set)"""
+        state = {}                      # id -> 1 (on the current walk) | 2 (done)
         for sid in self.final:
-            o_parse(self.final[sid])
-            seen, cur = [], sid
-            while cur is not None and cur in self.final:
-                if cur in seen:
+            walk, cur = [], sid
+            while cur is not None and cur in self.final and state.get(cur) != 2:
+                if state.get(cur) == 1:
                     raise _Unknown("cycle")
-                seen.append(cur)
+                state[cur] = 1
+                walk.append(cur)
                 cur = o_parse(self.final[cur])[0]
+            for w in walk:
+                state[w] = 2
 
 
 def _oracle_walk(case, replies):
@@ -586,6 +613,7 @@ def _oracle_walk(case, replies):
         if rep == "bad-op":
             raise _Unknown("protocol")
         if op == "cls":
+            # (the name after `@` is irrelevant: two classes are two components whatever they are called)
             parents = [] if args[1] == "none" else [int(x) for x in args[1].split(",")]
             accs = {"text": col.ColorsConfig.DFLT_SYNTAX_ID}
             if args[2] != "none":
@@ -745,6 +773,8 @@ def oracle(case, replies):
         builtin = set(k for k, _ in o_flatten(col.ColorsConfig.BUILT_IN_CONFIG))
         if items is None or len(set(k for k, _ in items)) != len(items) or builtin & set(k for k, _ in items):
             return None
+        if len(items) > 60:
+            return None                 # (one-by-one registration of a long chain is cubic; long chains are judged above)
         probes = sorted(set(k for k, _ in items) | builtin | {"?unknown?"} |
                         set(dec_str(l.split()[1]) for l in case["lines"] if l.startswith("get ")))
         try:
@@ -953,6 +983,16 @@ def corpus():
     yield c(["cls 0 none %s=%s %s" % (enc_str("s1"), enc_str("SYNT_1"), cfg_str({"SYNT_X_9": "BLUE"})),
              "new 0 " + cfg_str({"SYNT_1": "SYNT_X_2:-/YELLOW"}), "syn 0", "glob", "sget 0",
              "add " + cfg_str({"SYNT_X_2": "RED:bold"}), "sget 0"] + g("SYNT_1", "SYNT_X_9") + ["rep"], "synced")
+    # a synced palette shows get_color of its ids in the CURRENT state after every registration, resolved or not:
+    # unknown id = coloured default syntax, then known-but-pending = uncoloured, then resolved
+    yield c(["cls 0 none %s=%s nodefaults" % (enc_str("x"), enc_str("DEMO.X")), "new 0 " + cfg_str({"TEXT": "RED"}), "glob", "syn 0",
+             "add " + cfg_str({"DEMO.X": "DEMO.BASE:bold"}), "sget 0", "pal 0 0", "get " + enc_str("DEMO.X"),
+             "add " + cfg_str({"DEMO.BASE": "GREEN"}), "sget 0"], "synced-pending-only")
+    # two distinct palette classes with one and the same name are two components
+    yield c(["cls 0@%s none %s=%s %s" % (enc_str("Pal"), enc_str("a"), enc_str("A.ACCENT"), cfg_str({"A.ACCENT": "RED:bold"})),
+             "cls 1@%s none %s=%s %s" % (enc_str("Pal"), enc_str("b"), enc_str("B.ACCENT"), cfg_str({"B.ACCENT": "A.ACCENT:/BLUE"})),
+             "new 0 " + cfg_str({"LOG.LEVEL": "B.ACCENT:underline"}), "pal 0 0", "pal 1 0"] +
+            g("A.ACCENT", "B.ACCENT", "LOG.LEVEL") + ["rep"], "same-name-classes")
     # SYNCED_PARENT_FINDING: the model reproduces the AssertionError (correspondence only, the oracle does not judge it)
     yield c(["cls 0 none none " + cfg_str({"P1.X": "RED"}),
              "cls 1 0 %s=%s %s" % (enc_str("y"), enc_str("K.Y"), cfg_str({"K.Y": "P1.X:bold"})),
@@ -976,6 +1016,7 @@ def gen_cases(rng, tier):
     yield from _gen_shadow(rng, tier)
     yield from _gen_palettes(rng, tier)
     yield from _gen_global(rng, tier)
+    yield from _gen_long(rng, tier)
     yield from _gen_malformed(rng, tier)
 
 
@@ -1014,6 +1055,8 @@ def _gen_palettes(rng, tier):
         cuts = sorted(rng.randint(0, len(items)) for _ in range(ncls))
         groups = [items[a:b] for a, b in zip([0] + cuts, cuts + [len(items)])]
         lines = []
+        # distinct classes that share module and qualified name (a factory called twice, type("Pal", …) twice)
+        same_name = "@" + enc_str("Pal") if rng.random() < 0.35 else ""
         for k in range(ncls):
             parents = sorted(rng.sample(range(k), rng.randint(0, k))) if rng.random() < 0.6 else []
             accs = {"a%d" % i: p for i, p in enumerate(rng.sample(probes, min(len(probes), rng.randint(0, 3))))}
@@ -1021,8 +1064,8 @@ def _gen_palettes(rng, tier):
                 accs["text"] = rng.choice(probes)
             grp = groups[k + 1]
             dflt = "nodefaults" if (not grp and rng.random() < 0.5) else cfg_str(_nest(grp, rng) or dict(grp))
-            lines.append("cls %d %s %s %s" % (k, ",".join(map(str, parents)) or "none",
-                                              ";".join("%s=%s" % (enc_str(a), enc_str(s)) for a, s in accs.items()) or "none", dflt))
+            lines.append("cls %d%s %s %s %s" % (k, same_name, ",".join(map(str, parents)) or "none",
+                                                ";".join("%s=%s" % (enc_str(a), enc_str(s)) for a, s in accs.items()) or "none", dflt))
         lines.append("new %d %s" % (1 if rng.random() < 0.1 else 0, cfg_str(_nest(groups[0], rng) or dict(groups[0]))))
         gets = ["get " + enc_str(p) for p in probes]
         for _ in range(rng.randint(2, 6)):
@@ -1055,14 +1098,20 @@ def _gen_global(rng, tier):
         ncls = rng.randint(1, 4)
         cuts = sorted(rng.randint(0, len(items)) for _ in range(ncls + 1))
         groups = [items[a:b] for a, b in zip([0] + cuts, cuts + [len(items)])]
+        if "TEXT" not in dict(items) and rng.random() < 0.5:
+            groups[0] = groups[0] + [("TEXT", rng.choice(["RED", "BLUE/g5:bold", "(1,2,3):underline", "0/0"]))]
+        late = ["LATE.X", "LATE.Y"]      # ids that first become known-but-pending, later resolved
         lines = []
+        same_name = "@" + enc_str("Pal") if rng.random() < 0.35 else ""
         for k in range(ncls):
             parents = sorted(rng.sample(range(k), rng.randint(0, min(k, 2)))) if rng.random() < 0.5 else []
             accs = {"a%d" % i: p for i, p in enumerate(rng.sample(probes, min(len(probes), rng.randint(1, 3))))}
+            if rng.random() < 0.6:
+                accs["late"] = rng.choice(late)
             grp = groups[k + 1]
             dflt = "nodefaults" if (not grp or rng.random() < 0.2) else cfg_str(_nest(grp, rng) or dict(grp))
-            lines.append("cls %d %s %s %s" % (k, ",".join(map(str, parents)) or "none",
-                                              ";".join("%s=%s" % (enc_str(a), enc_str(s)) for a, s in accs.items()), dflt))
+            lines.append("cls %d%s %s %s %s" % (k, same_name, ",".join(map(str, parents)) or "none",
+                                                ";".join("%s=%s" % (enc_str(a), enc_str(s)) for a, s in accs.items()), dflt))
         pre = [k for k in range(ncls) if rng.random() < 0.4]
         lines.append("new %d %s" % (1 if rng.random() < 0.05 else 0, cfg_str(_nest(groups[0], rng) or dict(groups[0]))))
         lines.extend("syn %d" % k for k in pre)
@@ -1072,7 +1121,8 @@ def _gen_global(rng, tier):
         later = groups[ncls + 1] if len(groups) > ncls + 1 else []
         gets = ["get " + enc_str(p) for p in probes]
         syn = list(pre)
-        for _ in range(rng.randint(2, 7)):
+        late_state = 0
+        for _ in range(rng.randint(2, 8)):
             r = rng.random()
             if r < 0.3:
                 k = rng.randrange(ncls)
@@ -1086,9 +1136,20 @@ def _gen_global(rng, tier):
                 lines.append("add " + cfg_str(dict(later[:m])))
                 later = later[m:]
                 lines.extend("sget %d" % k for k in syn)
-            elif r < 0.85:
+            elif r < 0.80:
                 lines.append("add " + cfg_str({"MISSING": _gen_descr(rng, None)}))
                 lines.extend("sget %d" % k for k in syn)
+            elif r < 0.90 and late_state < 2:
+                # a batch of pending items only (nothing becomes resolved), later the id they wait for
+                if late_state == 0:
+                    batch = {l: "NOWHERE.Z:" + rng.choice(["bold", "GREEN", "-/BLUE"]) for l in late if rng.random() < 0.8} or \
+                            {late[0]: "NOWHERE.Z"}
+                else:
+                    batch = {"NOWHERE.Z": _gen_descr(rng, None)}
+                late_state += 1
+                lines.append(("add " if rng.random() < 0.6 else "reg %s " % enc_str("late%d" % late_state)) + cfg_str(batch))
+                lines.extend("sget %d" % k for k in syn)
+                lines.extend("get " + enc_str(l) for l in late)
             elif r < 0.95:
                 lines.append("pal %d %d" % (rng.randrange(ncls), 1 if rng.random() < 0.2 else 0))
             else:
@@ -1096,6 +1157,47 @@ def _gen_global(rng, tier):
         lines.extend("sget %d" % k for k in syn)
         lines.extend(gets)
         yield {"lines": lines + ["rep", "ids"], "meta": {"kind": "global", "items": len(items), "depth": depth}}
+
+
+def _long_chain(n, rng):
+    """[(id, description)]: L00000 -> L00001 -> … -> L<n-1> (the root); the leaf sorts first, so the first walk of the
+    resolution loop is the longest one; a few links contribute colours / modifiers of their own"""
+    items = []
+    for i in range(n):
+        sid = "L%05d" % i
+        if i == n - 1:
+            items.append((sid, "RED/BLUE:bold"))
+        else:
+            own = ""
+            if i % 97 == 3:
+                own = ":" + rng.choice(["GREEN", "/g5", "-", "0", "underline", "no_bold,blink"])
+            items.append((sid, "L%05d%s" % (i + 1, own)))
+    return items
+
+
+def _gen_long(rng, tier, sizes=None):
+    """reference chains of 10 … 1500 (thorough: 3000) links, pending all at once"""
+    sizes = sizes or ([10, 100, 600, 1500] if tier == "quick" else [10, 100, 600, 1000, 1500, 3000])
+    for n in sizes:
+        items = _long_chain(n, rng)
+        probes = ["L%05d" % i for i in sorted(set([0, 1, 2, n // 3, n // 2, n - 2, n - 1]) & set(range(n)))] + ["TEXT"]
+        gets = ["get " + enc_str(p) for p in probes]
+        shuffled = list(items)
+        rng.shuffle(shuffled)
+        half = n // 2
+        scenarios = [
+            ("one-batch", ["new 0 " + cfg_str(dict(shuffled))]),
+            ("leaf-half-first", ["new 0 " + cfg_str(dict(items[:half]))] + gets + ["add " + cfg_str(dict(items[half:]))]),
+            ("waits-for-root", ["new 0 " + cfg_str(dict(items[:-1]))] + gets + ["reg %s %s" % (enc_str("root"), cfg_str(dict(items[-1:])))]),
+            ("dangling", ["new 0 " + cfg_str(dict(items[:-1] + [(items[-1][0], "NOWHERE:bold")]))] + gets +
+             ["add " + cfg_str({"NOWHERE": "YELLOW"})]),
+            ("root-first-one-by-one" if n <= 100 else "root-first-two-batches",
+             ["new 0 " + cfg_str({})] + (["add " + cfg_str(dict([it])) for it in reversed(items)] if n <= 100 else
+                                          ["add " + cfg_str(dict(items[half:])), "add " + cfg_str(dict(items[:half]))])),
+        ]
+        for name, lines in scenarios:
+            yield {"lines": lines + gets + (["rep"] if n <= 100 else []),
+                   "meta": {"kind": "long-chain", "chain": n, "scenario": name, "depth": n}}
 
 
 _BAD = ["RED:BLUE", ":RED", "A:B", "a/b/c", "A:RED:bold:x", "(1,2,6)", "A/RED", "bold", "A,B", "RED::bold", "A: bold",
@@ -1151,6 +1253,8 @@ def search_cases(rng, tier):
     """directed search: every pair / triple of small descriptions over two colour slots, '-' and '' in every
     position, every registration order"""
     import itertools
+    # sizes first: a changed resolution loop (recursion, quadratic/cubic walks, fuel) shows on long pending chains
+    yield from _gen_long(rng, tier, sizes=[1500, 3000, 600, 100, 10])
     parts = ["", "-", "RED", "7"]
     descrs = []
     for parent in (None, "A", "B", "C", "TEXT", "MISSING"):
@@ -1217,12 +1321,18 @@ def nontrivial(case, replies):
         return False
     if any(r.startswith("err") for r in replies):
         return True
-    return case.get("meta", {}).get("depth", 1) >= 1 and any(r.startswith("ok 27") for r in replies)
+    return case.get("meta", {}).get("depth", 1) >= 1 and any(r.startswith("ok 27") or "=27," in r for r in replies)
 
 
 def tags(case, replies):
     m = case.get("meta", {})
     yield m.get("kind", "?")
+    if "chain" in m:
+        yield "chain-length:%d" % m["chain"]
+        yield "chain-scenario:" + m["scenario"].split("-one-by")[0].split("-two-b")[0]
+    if any(l.startswith("cls ") and "@" in l.split()[1] for l in case["lines"]) and \
+            sum(1 for l in case["lines"] if l.startswith("cls ")) >= 2:
+        yield "same-name-classes"
     if "items" in m:
         yield "items:%d" % m["items"]
         yield "depth:%d" % m["depth"]
@@ -1271,13 +1381,19 @@ def tags(case, replies):
         yield "synced-before-glob:%s" % (pre if pre < 2 else ">=2")
         if any(r == "err AssertionError" for l, r in zip(lines, replies) if l == "glob"):
             yield "glob-reentrant-assert"
+        if any("78,79,87,72,69,82,69,46,90,58" in l or l.endswith("s:78,79,87,72,69,82,69,46,90 )") for l in lines[first:]
+               if l.startswith(("add ", "reg "))):
+            yield "pending-only-batch-on-global" + (":coloured-TEXT" if any("84,69,88,84 s:" in l and "84,69,88,84 s:-" not in l
+                                                                             for l in lines if l.startswith("new ")) else "")
 
 
 RULE = ("acyclic description sets of 1-6 (thorough: 2-8) ids, chains of depth <= 4 through own, built-in and unknown ids, flat and "
         "nested dictionaries; every permutation of sets of <= 4 items (sampled above), random split between the constructor and "
         "1-3 later registrations (add_new_items / register_color_conf_component / palette class defaults), queries after every "
         "registration; shadowed ids; palette classes with parent palettes; the configuration made the global one with synced "
-        "palettes created before and after; make_report at the end of every history; malformed/unusual descriptions and cycles. "
+        "palettes created before and after, batches of pending items only under a coloured default syntax; distinct palette "
+        "classes sharing one name; reference chains of 10-1500 (thorough 3000) links pending at once; make_report at the end of "
+        "every history; malformed/unusual descriptions and cycles. "
         "non-trivial = at least one later registration and either an error reply or a coloured answer; distinct by protocol text")
 TRUSTED = ["ColorFmt (C09) renders the expected (fg, bg, effects) triple in the oracle",
            "the per-case adapter: fresh ColorsConfig and fresh Palette classes for every case"]
@@ -1298,7 +1414,9 @@ LEVEL_TEXT = ("Kernel-checked for every history (any split of the descriptions b
               "to a visible effect [palette_twice, palette_after_palette, palette_unchanged: C10's late_resolution characterised]; "
               "no_color configurations and no_color palettes are effect-free [nocolor]; a palette obtained at any time equals "
               "get_color of its syntax ids in the current state, cached or not [cache_fresh]; synced palettes of the global "
-              "configuration show the current formatters after every registration, nested re-syncs included [synced_fresh]. "
+              "configuration show get_color of their ids in the CURRENT state after every registration, resolved or not, nested "
+              "re-syncs included [synced_fresh, synced_pending_uncoloured]; every palette class is a component of its own, identified "
+              "by the class and not by its name: registered implies all its defaults described [registered_class_described]. "
               "No exception and no fuel exhaustion on an explicit decidable domain: valid descriptions with an acyclic final set "
               "for histories without palettes [no_error, no_error_add, parsed_colors_accepted]; with palette classes, the global "
               "configuration and synced palettes when the class table is well-founded, all offered descriptions are valid with an "
